@@ -367,7 +367,7 @@ Print Assumptions c13_amalgamate.
    has been dropped).
    Scope: the row count passed is the total number of rows of the pieces (what
    _amalgamate_h5ad passes when len(dst_obs) is the number of selected rows); for any other
-   row count see c13_example_amalgamate_rowcount. *)
+   row count see c13_amalgamate_rowcount_unchecked. *)
 Theorem c13_amalgamate_join : forall pieces ns nc,
   Forall2 (fun p n => wf_csr p n nc /\ no_dup_minor p) pieces ns ->
   exists out, amalgamate_csr pieces (sum_list ns) = Ok out /\
@@ -376,6 +376,26 @@ Theorem c13_amalgamate_join : forall pieces ns nc,
     concat (map (fun pn => dense_of (fst pn) (snd pn) nc) (combine pieces ns)).
 Proof. exact amalgamate_csr_join. Qed.
 Print Assumptions c13_amalgamate_join.
+
+(* the row count is NOT validated by the sparse destination (model changed after the audit
+   to what amalgamate_csr_to_x does: n_rows + 1 zeros, pieces written at the running row
+   position, last entry = n_valid; the former model answered Err EReject for every row
+   count other than the number of rows, which Python does not): well-formed pieces of
+   1 + 2 rows joined under the row count 3 give the CSR matrix; under 4 the function
+   returns normally with the pointer array [0; 0; 1; 0; 2], which is not monotone; under 2
+   it returns normally with a row boundary overwritten; under 1 h5py refuses.  Reached
+   through amalgamate_h5ad(dst_sparse=True) whenever len(dst_obs) is not the number of
+   selected rows (the dense destination raises RuntimeError there): reported to the lead
+   as a finding candidate (class amalgamate-sparse-rowcount-unchecked), like
+   c13_shuffle_rows_sublist_refuted. *)
+Theorem c13_amalgamate_rowcount_unchecked :
+  Forall2 (fun p n => wf_csr p n 4 /\ no_dup_minor p) rc_pieces [1; 2] /\
+  amalgamate_csr rc_pieces 3 = Ok {| ptr := [0; 0; 1; 2]; idx := [3; 0]; dat := [7; 8]%Z |} /\
+  (exists out, amalgamate_csr rc_pieces 4 = Ok out /\ ptr out = [0; 0; 1; 0; 2] /\ ~ mono (ptr out)) /\
+  amalgamate_csr rc_pieces 2 = Ok {| ptr := [0; 0; 2]; idx := [3; 0]; dat := [7; 8]%Z |} /\
+  amalgamate_csr rc_pieces 1 = Err EReject.
+Proof. exact amalgamate_rowcount_unchecked. Qed.
+Print Assumptions c13_amalgamate_rowcount_unchecked.
 
 (* entry points 1305 / 1306 = amalgamate_to_csr / amalgamate_to_dense on the decoded wire *)
 Theorem c13_amalgamate_wire : forall srcs nr ss n,
